@@ -163,7 +163,8 @@ def run_check(pid, tier, seed, workers=None, keep=None):
 
     # ---- violations: classify, dedupe by class, write replay files
     open_findings, fixed = known.load()
-    os.makedirs(os.path.join(env.VERIF, 'evidence', 'replay'), exist_ok=True)
+    evdir = os.environ.get('VERIF_EVIDENCE_DIR') or os.path.join(env.VERIF, 'evidence')
+    os.makedirs(os.path.join(evdir, 'replay'), exist_ok=True)
     classes = {}
     known_hits = {}
     for w in viol:
@@ -186,7 +187,7 @@ def run_check(pid, tier, seed, workers=None, keep=None):
         w['property'] = pid
         w['n_in_class'] = len(ws)
         h = sig(pid, cls)
-        path = os.path.join(env.VERIF, 'evidence', 'replay', '%s-%s.json' % (pid, h))
+        path = os.path.join(evdir, 'replay', '%s-%s.json' % (pid, h))
         with open(path, 'w') as f:
             json.dump(w, f, indent=1, default=repr, ensure_ascii=True)
         new_viol += len(ws)
@@ -236,7 +237,7 @@ def run_check(pid, tier, seed, workers=None, keep=None):
         'wall_s': round(time.time() - t0, 2),
         'violations': new_viol,
     }
-    path = os.path.join(env.VERIF, 'evidence', '%s.json' % pid)
+    path = os.path.join(evdir, '%s.json' % pid)
     with open(path + '.tmp', 'w') as f:
         json.dump(ev, f, indent=1, default=repr, ensure_ascii=True)
     os.replace(path + '.tmp', path)
